@@ -34,8 +34,10 @@ Record Fixes := mkFixes {
   fx_profile : bool;       (* main puts the global profile's (enabled, _profile) back as found *)
   fx_timer : bool;         (* the RepeatedTimer is created once *)
   fx_builtin : bool;       (* main removes / restores builtins.profile *)
-  fx_autoprof : bool       (* the enable_by_count() of auto-profiling's registration statements
-                              (-l -p) is balanced before main ends *)
+  fx_autoprof : bool;      (* -l: outstanding enable_by_count() calls - auto-profiling's registration statements
+                              (-p), or the program's own - are balanced before main ends *)
+  fx_direct_enable : bool  (* -l: main switches the LineProfiler off even when the program called
+                              profile.enable() itself and ended before profile.disable() *)
 }.
 
 (* ===> the behaviour of the current tree (edit here if kernprof.main changes again) <===
@@ -43,10 +45,12 @@ Record Fixes := mkFixes {
    decorator state handed back (2d3e878), one timer (204c2e5).
    decorator state handed back (2d3e878), one timer (204c2e5), auto-profiling's
    enable_by_count() balanced in main's finally (a77d816).
-   not changed: sys.argv is still rebound by main (harmless now); builtins.profile stays. *)
-Definition current : Fixes := mkFixes false true true true true false true.
+   not changed: sys.argv is still rebound by main (harmless now); builtins.profile stays;
+   a program that calls profile.enable() under -l and ends before profile.disable() leaves the
+   LineProfiler enabled (fx_direct_enable, a defect). *)
+Definition current : Fixes := mkFixes false true true true true false true false.
 (* the tree before the repairs *)
-Definition unrepaired : Fixes := mkFixes false false false false false false false.
+Definition unrepaired : Fixes := mkFixes false false false false false false false false.
 
 (* ---- the state --------------------------------------------------------------------- *)
 Definition heap := Z -> list string.
@@ -164,6 +168,11 @@ Definition uses_gp (us : list uop) (av : list string) (g : GP) : GP := fold_left
 Inductive outcome := Return | SysExit | KbdInt | Exc.     (* how the profiled program ends *)
 Inductive result := Returned | Raised.                    (* how kernprof.main ends *)
 
+Inductive leave :=
+| LNone                    (* no, or balanced: enable()..disable(), `with profile:`, decorated functions *)
+| LEnable                  (* profile.enable() without disable() *)
+| LByCount.                (* profile.enable_by_count() / profile.__enter__() without the matching exit *)
+
 Record Prog := mkProg {
   p_outcome : outcome;
   p_touch_path : bool;     (* the program does sys.path.append("/prog-added") *)
@@ -172,6 +181,8 @@ Record Prog := mkProg {
   p_rebind_argv : bool;    (* ... and sys.argv = sys.argv + ["prog-rebound"] *)
   p_uses_builtin : bool;   (* the program decorates with the builtin `profile` whenever one exists
                               (`try: profile / except NameError: profile = lambda f: f`) *)
+  p_leaves : leave;        (* the program switches the builtin `profile` on itself and ends (returns, exits,
+                              raises) before switching it off again *)
   p_regs : Z;              (* -l -p sel: how many of the program's import statements the selection
                               matches (with --prof-imports and the script selected: all of them).
                               Auto-profiling puts `profile.add_imported_function_or_module(x)` after
@@ -215,6 +226,19 @@ Definition registers (o : Opts) (p : Prog) : bool := o_line o && (0 <? p_regs p)
    (sys.monitoring PROFILER_ID is taken).  Plain cProfile mode: runctx fails before the program
    starts.  -l / -b: the program runs up to its first enable - a registration statement right
    after its imports if there is one, else the first call of a decorated function. *)
+(* cProfile.Profile.dump_stats() -> create_stats() -> disable(): kernprof's final dump switches the
+   cProfile flavour off as a side effect (kernprof.py ContextualProfile inherits it) *)
+Definition cprofile_dump_disables : bool := true.
+
+(* does this run end with its own profiler still enabled? *)
+Definition leaks (cfg : Fixes) (o : Opts) (p : Prog) : bool :=
+  if o_line o then
+    ((registers o p || match p_leaves p with LByCount => true | _ => false end) && negb (fx_autoprof cfg))
+    || (match p_leaves p with LEnable => true | _ => false end && negb (fx_direct_enable cfg))
+  else if o_builtin o then
+    match p_leaves p with LNone => false | _ => negb cprofile_dump_disables end
+  else false.
+
 Definition body_runs (o : Opts) (p : Prog) (found_tracing : option prof) : bool :=
   negb (is_some found_tracing) || ((o_line o || o_builtin o) && negb (registers o p)).
 
@@ -262,10 +286,12 @@ Definition main_body (cfg : Fixes) (o : Opts) (p : Prog) (s : St) : result * St 
   let s := upd_argv (fun c => if p_touch_argv p && body_runs o p found_tracing then append_cur "prog-added" c else c) s in
   let s := upd_path (fun c => if p_rebind_path p && body_runs o p found_tracing then rebind_with "/prog-rebound" c else c) s in
   let s := upd_argv (fun c => if p_rebind_argv p && body_runs o p found_tracing then rebind_with "prog-rebound" c else c) s in
-  (* ... except the registrations of auto-profiling: enable_by_count() once per registered import
-     (line_profiler/autoprofile/line_profiler_utils.py:25), never disabled before a77d816; now
-     main's finally does `while prof.enable_count > 0: prof.disable_by_count()` *)
-  let s := set_tracing (if registers o p && negb (fx_autoprof cfg) && negb (is_some found_tracing)
+  (* ... except ([leaks]) the registrations of auto-profiling: enable_by_count() once per registered
+     import (line_profiler/autoprofile/line_profiler_utils.py:25), and a program that switches the
+     builtin profile on and does not switch it off.  main's finally does, for -l,
+     `while prof.enable_count > 0: prof.disable_by_count()` (a77d816), which does not undo a direct
+     enable(); for the cProfile flavour the final dump_stats() disables. *)
+  let s := set_tracing (if leaks cfg o p && negb (is_some found_tracing)
                         then Some pr else found_tracing) s in
   (* 531-532: except (KeyboardInterrupt, SystemExit): pass     533: finally: *)
   (* 534-535: rt.stop(); what is left of that timer once its dumps in progress have returned *)
@@ -376,5 +402,5 @@ Definition mk_state (argv0 : list string) (argv_rebound : bool) (path0 : list st
 
 Definition st0 : St := mk_state ["driver"] false ["/lib"] false gp_init 0.
 Definition opts0 : Opts := mkOpts true false false None [] 0 ["prog.py"; "a"] "" "/T".
-Definition returns : Prog := mkProg Return false false false false true 0 [].
-Definition raises : Prog := mkProg Exc false false false false true 0 [Fire].
+Definition returns : Prog := mkProg Return false false false false true LNone 0 [].
+Definition raises : Prog := mkProg Exc false false false false true LNone 0 [Fire].
